@@ -4,22 +4,35 @@ EXTENDS NodeConf
 
 \* ids with no dot, one dot, two dots; two suffixes
 MCSpaceIds == {<<"k1">>, <<"x", "k1">>, <<"y", "k1">>, <<"a", "b", "k1">>, <<"x", "k2">>}
-\* every configuration of the given nodes with every type mix
-Confs == UNION {[D -> SUBSET Types] : D \in SUBSET Nodes}
+\* every configuration of the given nodes with every mix of the types that matter for the rings
+\* (addresses and the coordinator type only matter for the life cycle: dynamic instance)
+NodeRecs == [types : SUBSET {"tree", "fileV2"}, addrs : {{}}]
+Confs == UNION {[D -> NodeRecs] : D \in SUBSET Nodes}
 MCAllPubs == [ConfIds -> Confs]
 NodeSym == Permutations(Nodes)
 
-\* dynamic instance (Boot / Update / Restart): two published configurations that differ in the sync set,
-\* only in node types that do not matter, or not at all in the sync set
+\* dynamic instance (Boot / Update / Restart): pairs <<application configuration, other published configuration>>
 MCSpaceIds2 == {<<"x", "k1">>, <<"k1">>, <<"x", "k2">>}
 MCSpaceIds3 == {<<"x", "k1">>, <<"k1">>}
 MCSpaceIds4 == {<<"k1">>, <<"x", "k1">>, <<"a", "b", "k1">>, <<"x", "k2">>}
 MCDynPubs ==
   LET N1 == CHOOSE n \in Nodes : TRUE
       N2 == CHOOSE n \in Nodes : n # N1
-      T == {"tree"}  F == {"fileV2"}  TF == {"tree", "fileV2"}
-  IN { [c \in ConfIds |-> IF c = FirstConf THEN (N1 :> T @@ N2 :> T) ELSE (N1 :> T)],
-       [c \in ConfIds |-> IF c = FirstConf THEN (N1 :> T) ELSE (N2 :> TF @@ N1 :> F)],
-       [c \in ConfIds |-> IF c = FirstConf THEN (N1 :> TF @@ N2 :> {}) ELSE (N1 :> T @@ N2 :> F)],
-       [c \in ConfIds |-> IF c = FirstConf THEN (N1 :> {}) ELSE (N1 :> T @@ N2 :> TF)] }
+      T == {"tree"}  F == {"fileV2"}  TF == {"tree", "fileV2"}  C == {"coord"}  TC == {"tree", "coord"}
+      R(ts, as) == [types |-> ts, addrs |-> as]
+      Pair(a, b) == [c \in ConfIds |-> IF c = FirstConf THEN a ELSE b]
+  IN { \* the sync set shrinks / changes completely / only irrelevant types change / grows
+       Pair(N1 :> R(T, {}) @@ N2 :> R(T, {}),        N1 :> R(T, {})),
+       Pair(N1 :> R(T, {}),                          N2 :> R(TF, {}) @@ N1 :> R(F, {})),
+       Pair(N1 :> R(TF, {}) @@ N2 :> R({}, {}),      N1 :> R(T, {}) @@ N2 :> R(F, {})),
+       Pair(N1 :> R({}, {}),                         N1 :> R(T, {}) @@ N2 :> R(TF, {})),
+       \* role swap: same node set, same number of sync nodes, types permuted
+       Pair(N1 :> R(T, {}) @@ N2 :> R(F, {}),        N1 :> R(F, {}) @@ N2 :> R(T, {})),
+       Pair(N1 :> R(TF, {}) @@ N2 :> R({}, {}),      N1 :> R({}, {}) @@ N2 :> R(TF, {})),
+       \* coordinator merge: the published configuration lacks an address / a coordinator the application has
+       Pair(N1 :> R(TC, {"x", "y"}) @@ N2 :> R(T, {}),   N1 :> R(TC, {"x"}) @@ N2 :> R(T, {})),
+       Pair(N1 :> R(T, {}) @@ N2 :> R(C, {"x"}),         N1 :> R(T, {})),
+       Pair(N1 :> R(T, {}) @@ N2 :> R(TC, {"x"}),        N1 :> R(T, {})),
+       \* ... and one where the merge changes nothing
+       Pair(N1 :> R(TC, {"x"}) @@ N2 :> R(T, {}),        N1 :> R(TC, {"x", "y"}) @@ N2 :> R(F, {})) }
 =============================================================================
